@@ -35,6 +35,18 @@ def realise(k, op, variant, reg):
     pos = {'pre': 'prefix', 'suf': 'suffix'}.get(c)
     code = {'value': cv, 'size': cw, 'position': pos} if c != 'none' else None
     opts = []
+    if a in ('rel', 'relend'):
+        # the operand text is the TARGET (filled in per placement: {Tk}); the field carries target - own address
+        cfg = {'type': 'relative_address', 'argument': _arg_cfg(aw, al, aen)}
+        if a == 'relend':
+            cfg['offset_from_instruction_end'] = True
+        if (variant + k) % 2:
+            cfg['use_curly_braces'] = True
+            return cfg, '{{T%d}}' % k, 'relative_address' + ('(end)' if a == 'relend' else '')
+        return cfg, '{T%d}' % k, 'relative_address' + ('(end)' if a == 'relend' else '')
+    if a == 'slice':
+        cfg = {'type': 'address', 'argument': dict(_arg_cfg(aw, al, aen), slice_lsb=True, match_address_msb=True)}
+        return cfg, '{T%d}' % k, 'address(slice)'
     if c != 'none' and a == 'none':
         opts.append(('register', {'type': 'register', 'register': reg, 'bytecode': code}, reg))
         opts.append(('numeric_enumeration', {'type': 'numeric_enumeration', 'bytecode': {'size': cw, 'position': pos, 'value_dict': {7: cv, 8: (cv + 1) % (1 << cw)}}}, '3 + 4'))
